@@ -336,3 +336,15 @@ Check summary_should_quit_generated_eq_model : forall (cfg : sconfig) (match_cou
 Check standard_should_quit_generated_eq_model : forall (cfg : stdconfig) (match_count after_rem : nat),
   DecisionsLib.standard_should_quit (st_max cfg) match_count after_rem
   = Standard.sd_should_quit cfg match_count after_rem.
+
+(* the same tie for crates/printer/src/json.rs JSONSink::{should_quit, match_more_than_limit} (Model/Json.v) *)
+From RG Require Model.Json.
+Theorem json_should_quit_generated_eq_model : forall (cfg : Json.jconfig) (match_count after_rem : nat),
+  DecisionsLib.json_should_quit (Json.j_max cfg) match_count after_rem
+  = Json.js_should_quit cfg match_count after_rem.
+Proof. exact GenLibProofs.json_should_quit_eq. Qed.
+Print Assumptions json_should_quit_generated_eq_model.
+Theorem json_match_more_than_limit_generated_eq_model : forall (cfg : Json.jconfig) (match_count : nat),
+  DecisionsLib.json_match_more_than_limit (Json.j_max cfg) match_count = Json.js_more_than_limit cfg match_count.
+Proof. exact GenLibProofs.json_match_more_than_limit_eq. Qed.
+Print Assumptions json_match_more_than_limit_generated_eq_model.
